@@ -173,7 +173,7 @@ def r_cb_linear(ctx):
         # end of the region: next type test or exit
         regs = U.regions(ctx)
         stops = [cid for k, lst in regs.items() for cid, e in lst] + [cfg.exit.id]
-        stops += [n.id for n in cfg.nodes if n.kind == 'cond' and 'raftState' in unparse(n.ast) and n.lineno > pn.lineno]
+        stops += [n.id for n in cfg.nodes if n.kind == 'cond' and any(P.self_attr(x, h.self_name) == R.raftState for x in ast.walk(n.ast)) and n.lineno > pn.lineno]
         init = [fs for fs in U.full_run(ctx, h).facts_at(pn.id)]
         okall = True
         npth = 0
